@@ -179,7 +179,8 @@ GenericPL == {<<"nopl-creator">>, <<"nopl-other">>}
                          \X {AbsentV, IntV(49), IntV(51)}                                       \* events_default
                          \X {AbsentV, IntV(49), IntV(51)}                                       \* state_default
 NextGeneric ==
-  \E ty \in {"msg", "state", "ownkey", "otherkey", "plainkey", "custom"}, sm \in Memberships, g \in GenericPL :
+  \E ty \in {"msg", "state", "ownkey", "otherkey", "plainkey", "custom"}, sm \in Memberships, g \in GenericPL,
+     sl \in {50, 49, 0} :       \* at / just below the defaults 50 and 0, so that an absent field differs from a wrong default
      LET sender == IF g[1] = "nopl-creator" THEN UC ELSE UA
          etype == IF ty = "msg" THEN "m.room.message" ELSE IF ty = "custom" THEN "org.custom.ev" ELSE "m.room.topic"
          ev == CASE ty \in {"msg", "custom"} -> Ev("$e", etype, sender, FALSE, "", C0)
@@ -188,11 +189,12 @@ NextGeneric ==
                  [] ty = "otherkey" -> [Ev("$e", etype, sender, TRUE, UB.name, C0) EXCEPT !.keyisuser = TRUE]
                  [] ty = "plainkey" -> Ev("$e", etype, sender, TRUE, "x", C0)
          pl == IF g[1] \in {"nopl-creator", "nopl-other"} THEN {}
-               ELSE LET base == IF g[2] = "users" THEN PLUsers(One(sender.name, IntV(50)))
-                                ELSE [EmptyPL EXCEPT !.users_default = IntV(50)]
+               ELSE LET base == IF g[2] = "users" THEN PLUsers(One(sender.name, IntV(sl)))
+                                ELSE [EmptyPL EXCEPT !.users_default = IntV(sl)]
                     IN {PLEv([base EXCEPT !.events = IF g[3] = AbsentV THEN <<>> ELSE One(etype, g[3]),
                                           !.events_default = g[4], !.state_default = g[5]])}
-     IN /\ IF sm # "join" /\ g[1] = "pl" THEN g[3] = IntV(50) /\ g[4] = AbsentV /\ g[5] = AbsentV ELSE TRUE
+     IN /\ IF sm # "join" /\ g[1] = "pl" THEN g[3] = IntV(50) /\ g[4] = AbsentV /\ g[5] = AbsentV /\ sl = 50 ELSE TRUE
+        /\ (g[1] # "pl" => sl = 50)
         /\ evs' = Base \cup Members(One(sender, sm)) \cup pl \cup JR("invite")
         /\ e' = ev
 
